@@ -199,19 +199,19 @@ PLAN = {
 RULES = {
     "C12": "rapid, histories: 1-12 prior calls over all routes, weighted towards what can leave a pooled printer dirty (caught and propagating method panics, SafeFormat methods panicking mid-output, Safe/Unsafe overrides around user programs, bad verbs, %w use and misuse in HelperForErrorf, nested printers, outputs just below and above the 64 KiB pooling limit, error hook, registered types), with a probe after each call and then a battery of 15 fixed probe calls whose results are compared with references obtained on newly allocated printers (pool drained through the hook; GOMAXPROCS(1), GC off during a case so that the pool is not emptied behind the harness); a second generator compares the probes in a warm process with those printed by a freshly started subprocess. Non-trivial = the history contains an abnormal call and at least one probe ran on a recycled printer (no pool allocation during the probe, by the hook's counter). Schedules: 2-16 goroutines replay generated call lists concurrently (1/4 of the cases on one shared set of operand objects) with generated runtime.Gosched() injection; results are compared with single-threaded references, and the same property runs in a -race build where any race report is a violation; plus a fixed scenario (8 goroutines printing one StringBuilder with an open envelope). Non-trivial there = at least two calls actually overlapped (atomic phase counter). Distinct = distinct specs (64-bit fingerprint). The battery also holds probes that use 2 and 4 nested printers at once (reaching printers deeper in the pool) and print panicking Stringers inside nested printers; a fifth of the history calls is a Safe()/Unsafe()/bare re-entrant program whose nested Print/Printf meets a contained or a propagating panic. First use: each of 28 public entry points is the first library call of a freshly started process (made by one goroutine, and - in a race-detector build - by 8 goroutines at once), followed by all the others; results compared with a warm process. Concurrency cases take their sequential references after the concurrent phase and one in three lets several goroutines print a never-seen struct type with field names as their first call.",
     "C05": "rapid: route (Sprintf, Fprintf, Sprint, Fprint, StringBuilder.Printf, SafePrinter.Printf) x 1-3 directives with flags/width/precision and a verb valid for its operand class (string verbs v s q x X, integer verbs v d b o O x X c q U, float verbs, bool verbs) x operands that are leaves or containers of leaves to depth 2 ([]interface{}, [2]interface{}, struct with interface fields, single-entry map[interface{}]interface{} incl. its key) x configuration (every subset of the registrable pool, registry reset per case through the hook). Leaves: plain and named basic kinds, named kinds with String/Error methods, SafeString/SafeInt/SafeUint/SafeFloat, SafeValue-marked kinds, registrable kinds, Safe(x), Unsafe(x), untyped nil, scripted SafeFormatters (flagless directives). Oracle: fmt renders the same shape with every leaf inside an extent wrapper (sentinel + fmt.FormatString forwarding); from it T (full text) and S (unsafe extents reduced to their line feeds) are read off, and strip(out) == esc(T), delEnv(out) == esc(S). Non-trivial = at least one safe and one unsafe leaf and (nesting or a flag/width/precision/non-v verb). Distinct = distinct specs (64-bit fingerprint). Leaves are also placed in reflect.Value operands (made from the value, or designating an interface-typed slot); the builtin types string and int are registered in one case in eight each. C05Join: JoinTo over []string, []int, []interface{}, named-string, error and registered-type slices and arrays on a StringBuilder and on a SafePrinter (after 0-2 prior writes), under all subsets of registered types incl. builtin string/int, compared with Print of each element (non-trivial = at least 2 elements and a registered type).",
-    "C06": "rapid: x from the full value universe (1/2 of the cases) or the fmt-compatible one, including scripted Formatters that discover the SafePrinter behind their fmt.State and scripted SafeFormatters, both calling back through Print/Printf/Safe*/Unsafe*/Write with recursive operands, SafeValues, registered types, library-produced RedactableStrings, errors with an error hook installed; a directive without '*'; a wrapper chain W1(W2(W3(x))) of length 1-3; placed at top level, in a []interface{}, in an exported struct field or as a map value. Oracle: N - the chain prints exactly like W1(x); U1 - under an outermost Unsafe nothing of the rendering is outside envelopes (only the container's brackets and line feeds); U2 - at top level, for fmt-compatible x, the stripped text is what fmt prints for x; S1 - under an outermost Safe, for fmt-compatible x without classification of its own, no envelope and exactly fmt's characters (top level and in a slice); H - with a hook installed Unsafe(err) prints as without and the hook is not called. Non-trivial = x is itself classified (SafeValue, Safe-wrapped, registered, redactable, SafeFormatter, hooked error) or its method re-enters the printer. Distinct = distinct specs (64-bit fingerprint).",
-    "C17": "rapid: configuration (hook installed with probability 0.9: a scripted function over the SafeWriter-op universe that can also emit the verb and err.Error(); registered safe types) x error values (value/pointer/errors.New/named-kind errors, wrapping, nil-receiver, error+Stringer, error+Formatter, error+SafeFormatter, error+SafeMessager) x positions (top level under every verb and flag incl. invalid and non-ASCII verbs, %T/%p, the %w of HelperForErrorf, []interface{}, []error, map values, exported and unexported struct fields, pointer to struct, arrays, reflect.Value, under Safe(), under Unsafe()) x routes (Sprint, Sprintf, Fprintf, HelperForErrorf). Oracle: output with the hook == output of the same shape with every dispatched error replaced by an error+SafeFormatter stand-in whose SafeFormat runs the hook's script (both shapes share all other objects); the hook is not called in the stand-in run (i.e. never for SafeFormatter/SafeMessager errors, %T/%p, unexported fields, under Unsafe()); the multiset of (error, verb) hook calls equals the stand-in's SafeFormat calls and their number equals the number of dispatched positions; Unsafe(err) prints as without hook and fully enveloped. Non-trivial = hook installed, at least one dispatched error, and not bare top-level %v. Distinct = distinct specs (64-bit fingerprint). A sixth of the hooks panics after its partial output (the stand-in then panics in SafeFormat; the two report names are identified); hooks may print the error's cause through the printer ('Cause' op: the hook is re-entered for it, chains of value-type uncomparable wrapping errors included) and operands of their own that are not errors, including ones whose methods panic.",
+    "C06": "rapid: x from the full value universe (1/2 of the cases) or the fmt-compatible one, including scripted Formatters that discover the SafePrinter behind their fmt.State and scripted SafeFormatters, both calling back through Print/Printf/Safe*/Unsafe*/Write with recursive operands, SafeValues, registered types, library-produced RedactableStrings, errors with an error hook installed; a directive without '*'; a wrapper chain W1(W2(W3(x))) of length 1-3; placed at top level, in a []interface{}, in an exported struct field or as a map value. Oracle: N - the chain prints exactly like W1(x); U1 - under an outermost Unsafe nothing of the rendering is outside envelopes (only the container's brackets and line feeds); U2 - at top level, for fmt-compatible x, the stripped text is what fmt prints for x; S1 - under an outermost Safe, for fmt-compatible x without classification of its own, no envelope and exactly fmt's characters (top level and in a slice); H - with a hook installed Unsafe(err) prints as without and the hook is not called. Non-trivial = x is itself classified (SafeValue, Safe-wrapped, registered, redactable, SafeFormatter, hooked error) or its method re-enters the printer. Distinct = distinct specs (64-bit fingerprint). Further placements: the wrapper inside a reflect.Value operand (made from it, or designating an interface-typed slot: Elem of a pointer to an interface, struct field, slice element), which must print like each other and, for pointer- and reflect.Value-free x, like fmt prints x as a slice element. One case in eight is a formatter that discovers the SafePrinter and makes a nested Printf with a missing operand, a bad argument index or an extra operand.",
+    "C17": "rapid: configuration (hook installed with probability 0.9: a scripted function over the SafeWriter-op universe that can also emit the verb and err.Error(); registered safe types) x error values (value/pointer/errors.New/named-kind errors, wrapping, nil-receiver, error+Stringer, error+Formatter, error+SafeFormatter, error+SafeMessager) x positions (top level under every verb and flag incl. invalid and non-ASCII verbs, %T/%p, the %w of HelperForErrorf, []interface{}, []error, map values, exported and unexported struct fields, pointer to struct, arrays, reflect.Value, under Safe(), under Unsafe()) x routes (Sprint, Sprintf, Fprintf, HelperForErrorf). Oracle: output with the hook == output of the same shape with every dispatched error replaced by an error+SafeFormatter stand-in whose SafeFormat runs the hook's script (both shapes share all other objects); the hook is not called in the stand-in run (i.e. never for SafeFormatter/SafeMessager errors, %T/%p, unexported fields, under Unsafe()); the multiset of (error, verb) hook calls equals the stand-in's SafeFormat calls and their number equals the number of dispatched positions; Unsafe(err) prints as without hook and fully enveloped. Non-trivial = hook installed, at least one dispatched error, and not bare top-level %v. Distinct = distinct specs (64-bit fingerprint). A sixth of the hooks panics after its partial output (the stand-in then panics in SafeFormat; the two report names are identified); hooks may print the error's cause through the printer ('Cause' op: the hook is re-entered for it, chains of value-type uncomparable wrapping errors included) and operands of their own that are not errors, including ones whose methods panic. Error kinds also include byte-kinded errors alone and as the elements of a typed slice (a byte string under s/q/x/X: not dispatched there), named slice types whose nil value makes Error panic, and errors that are GoStringers.",
     "C08": "rapid: histories of 1-6 steps starting from a library-produced redactable r0 (Sprint/Sprintf of generated operands: envelopes, line feeds, escaped markers, empty); each step applies one of 31 re-print / join / container compositions (Sprint, Sprint of ToBytes, Sprintf with literals around any directive except %T/%p incl. flags, width, precision, '*', odd verbs; reflect.ValueOf; Safe(); Join/JoinTo with safe or unsafe delimiters on a builder and on a SafePrinter; StringBuilder.Print/Printf; printing a StringBuilder by value and by pointer; SafePrinter.Print/Printf; []RedactableString, [2]RedactableString, []interface{}, map values, struct fields exported / unexported / interface-typed, pointer to struct, %+v, %#v) and the result becomes the next r. Oracle per step: the result equals the literal concatenation of its pieces (identity for re-printing), and Redact / StripMarkers applied to the result equal the concatenation of their application to the pieces. Non-trivial = the redactable contains an envelope, an escaped marker or a line feed and the step is not bare %v/Sprint. Distinct = distinct specs (64-bit fingerprint).",
     "C15": "rapid: structured formats with 0-4 directives, each %w with probability 1/2 (flags, width, precision, '*'), operands at %w positions drawn from {error value, pointer error, errors.New, named-kind errors, wrapping error, nil-receiver error, error+Stringer, error+SafeFormatter, error+SafeMessager, Safe(err), Unsafe(err), untyped nil, string, int, Stringer, struct, missing}; other operands from the full or the fmt-compatible universe; optional error hook. Oracle: (E) returned error by the statement (sequential model: the first %w with an error operand is captured, any misuse clears it for good); (T1) no %w => text == Sprintf; (T2) text == per-directive Sprintf with the correct %w printed as %v and every other %w as the bad-verb report; (T3) for at most one %w and fmt-compatible operands: stripped text == fmt.Errorf(...).Error() escaped and error == errors.Unwrap. Non-trivial = at least one %w. Distinct = distinct specs (64-bit fingerprint).",
-    "C16": "rapid: an argument list (full value universe, registered types, optional error hook) with a structured or chaotic format, printed through Sprint/Sprintf (reference), Fprint/Fprintf into a recording writer that succeeds, fails or writes short, HelperForErrorf (formats without %w), and embedded between 0-5 generated prefix and 0-4 suffix writer ops on a StringBuilder, on the SafePrinter of Sprintfn and on the SafePrinter of a SafeFormat method. Oracle: F variant = exactly one Write with the S variant's bytes and (n, err) as returned by the writer; embedded routes equal prefix-alone + S variant + suffix-alone after merging adjacent envelopes. Non-trivial = at least two operands or a non-basic operand, and the prefix leaves an envelope open or unescaped bytes pending in the outer buffer (observed through the hook). Distinct = distinct specs (64-bit fingerprint).",
-    "C11": "enumeration: all 2048 surrogates plus negative / out-of-range / boundary runes x every rune-taking method x 5 buffer-state classes (empty, open envelope, after safe text, after pre-redactable text, pending partial UTF-8) x 4 implementations; rapid: (a) histories prefix + one edge call (any int32 rune, any byte 0..255, arbitrary byte strings) + suffix on StringBuilder, ManualBuffer, Sprintfn and SafeFormat printers: no panic, line-safe, text before and after intact; (b) JoinTo with non-slice operands of 25 kinds (int, nil, string, array, map, pointer, chan, func, struct, typed nils, wrappers): no panic, output = printing the value as-is; (c) print cases over all routes / full universe / chaotic formats / configurations: a panic may escape only if a panic is raised while printing a panic payload; (d) a method panicking (String, Error, GoString, SafeMessage, Format, SafeFormat, error hook; after 0-4 ops of partial output; payload string/error/SafeString/int/nested panicker; top level, under Unsafe(), inside a slice) between generated text: the output must equal text-before + partial output + %!verb(PANIC=<method> method: <payload>) + text-after. Non-trivial = an edge value, a non-slice operand, a chaotic format, nil operand or a panicking method is involved. Distinct = distinct specs (64-bit fingerprint).",
-    "C14": "enumeration: the complete product 32 flag subsets x 8 widths {absent,1,7,12,1000,*=-7,*=0,*=5} x 7 precisions {absent,'.',0,1,5,*=0,*=3} x 56 verbs (all ASCII letters, e-acute, cross, start marker, invalid byte) x 13 operand kinds (1.4M evaluations), each under fmt's State and under redact's printer; rapid: directives outside the grid (widths 1..300, star values -40..40, precisions 0..40). Non-trivial = any directive other than bare %v. Distinct = distinct (directive, star values, operand kind). A third part (TestEnumC14Big) forwards widths/precisions up to the accepted maximum of 1e6 (literal and '*') and large values congruent to small ones modulo 65536, interleaved with those (the answer must not depend on what was forwarded before).",
+    "C16": "rapid: an argument list (full value universe, registered types, optional error hook) with a structured or chaotic format, printed through Sprint/Sprintf (reference), Fprint/Fprintf into a recording writer that succeeds, fails or writes short, HelperForErrorf (formats without %w), and embedded between 0-5 generated prefix and 0-4 suffix writer ops on a StringBuilder, on the SafePrinter of Sprintfn and on the SafePrinter of a SafeFormat method. Oracle: F variant = exactly one Write with the S variant's bytes and (n, err) as returned by the writer; embedded routes equal prefix-alone + S variant + suffix-alone after merging adjacent envelopes. Non-trivial = at least two operands or a non-basic operand, and the prefix leaves an envelope open or unescaped bytes pending in the outer buffer (observed through the hook). Distinct = distinct specs (64-bit fingerprint). The SafeFormat route is also taken under %8v %-6.1v %#v %+v %08.3v '% x' %q when prefix and suffix have no SafeInt/SafeUint/SafeFloat.",
+    "C11": "enumeration: all 2048 surrogates plus negative / out-of-range / boundary runes x every rune-taking method x 5 buffer-state classes (empty, open envelope, after safe text, after pre-redactable text, pending partial UTF-8) x 4 implementations; rapid: (a) histories prefix + one edge call (any int32 rune, any byte 0..255, arbitrary byte strings) + suffix on StringBuilder, ManualBuffer, Sprintfn and SafeFormat printers: no panic, line-safe, text before and after intact; (b) JoinTo with non-slice operands of 25 kinds (int, nil, string, array, map, pointer, chan, func, struct, typed nils, wrappers): no panic, output = printing the value as-is; (c) print cases over all routes / full universe / chaotic formats / configurations: a panic may escape only if a panic is raised while printing a panic payload; (d) a method panicking (String, Error, GoString, SafeMessage, Format, SafeFormat, error hook; after 0-4 ops of partial output; payload string/error/SafeString/int/nested panicker; top level, under Unsafe(), inside a slice) between generated text: the output must equal text-before + partial output + %!verb(PANIC=<method> method: <payload>) + text-after. Non-trivial = an edge value, a non-slice operand, a chaotic format, nil operand or a panicking method is involved. Distinct = distinct specs (64-bit fingerprint). Panic cases also check StringWithoutMarkers against Sprint for SafeFormatter operands.",
+    "C14": "enumeration: the complete product 32 flag subsets x 8 widths {absent,1,7,12,1000,*=-7,*=0,*=5} x 7 precisions {absent,'.',0,1,5,*=0,*=3} x 56 verbs (all ASCII letters, e-acute, cross, start marker, invalid byte) x 13 operand kinds (1.4M evaluations), each under fmt's State and under redact's printer; rapid: directives outside the grid (widths 1..300, star values -40..40, precisions 0..40). Non-trivial = any directive other than bare %v. Distinct = distinct (directive, star values, operand kind). A third part (TestEnumC14Big) forwards widths/precisions up to the accepted maximum of 1e6 (literal and '*') and large values congruent to small ones modulo 65536, interleaved with those (the answer must not depend on what was forwarded before). rapid also draws: the probe / forwarder as the second element of a slice after a sibling (0, uint8(0), 7, 2.5, \"ab\", nil, true), '*' width operands of kind uint64/uint/uintptr/int64/uint8 at the edges of their range, operands that are nil pointers to Formatter / Stringer types; and compares the state tuple seen under fmt with the one seen under redact.",
     "C02": "rapid: a shape (route x format x operand tree x registered types x optional error hook) with two instantiations A, B of its unsafe leaves, B derived from A by construction: every non-LF rune of an unsafe string is replaced by a freshly drawn one (markers, multi-byte runes included), run lengths may change when the consuming directive has no width/precision; byte slices and StringBuilder payloads keep their encoded length; bools, floats, complex always redrawn; integers redrawn in structured formats (zero-ness kept: it is 'emptiness' under a zero precision; shared under %c, which can print a line feed) and shared in chaotic formats (any may feed a '*'); map keys keep their relative order; public parts (literals, safe types, Safe()-wrapped, registered, star operands) are shared and free of pointers. Oracle: Redact(A) == Redact(B) byte for byte, both panic or neither, and a private-use rune tagged onto A's unsafe leaves never survives redaction. Non-trivial = the two unredacted outputs differ and the case is not bare top-level %v of basic values. Distinct = distinct specs (64-bit fingerprint). The class histogram counts (operand kind x verb) pairs.",
     "C04": "rapid: route (Sprint, Sprintf, Fprint, Fprintf) x format (70% structured, 30% chaotic; every verb incl. invalid and non-ASCII ones, flags, width, precision, '*' with negative/zero/too large/non-int operands, argument indexes in chaotic formats, missing and extra operands) x operands from the fmt-compatible universe (basic and named kinds, containers, pointers, nil and typed nil, reflect.Value, Stringer/error/Formatter/GoStringer implementations incl. panicking, nil-receiver and scripted ones, SafeValue-marked and registered types), valid UTF-8 text with markers; excluded as the property says: %w, '0' with '-'. Oracle: strip(redact output) == fmt output with markers replaced by '?'; panics iff fmt panics. Non-trivial = anything beyond bare %v of a basic value (flag, width, precision, other verb, container, method, or an fmt diagnostic in the output). Distinct = distinct specs (64-bit fingerprint). A second generator (TestC04Num) concentrates on numeric leaves: every numeric verb x flag subsets x widths/precisions from {0..8, 20, 59..65, 100, 127..129, 300, 1000} x integers at the edges of the rune and integer ranges (surrogates, U+FFFF/U+10000, U+1F600, U+10FFFF+1, min/max int64) and floats incl. 1e300, 5e-324, NaN, Inf. Formats now and then carry explicit argument indexes at all three places ([n]*, .[n]*, [n]verb) and, rarely, widths at the parser's limits (999999..1000009).",
     "C01": "rapid: (a) print cases = route (Sprint, Sprintf, Fprint, Fprintf, HelperForErrorf, StringBuilder.Print/Printf incl. RedactableBytes, Sprintfn Print/Printf) x format (65% structured directives with flags/width/precision/star/odd and non-ASCII verbs, 35% chaotic byte soup) x operands from the full value universe (plain kinds, containers, pointers, Stringer/error/Formatter/GoStringer/SafeFormatter/SafeMessager programs incl. panicking ones and formatters that discover the SafePrinter, Safe/Unsafe wrappers, library-produced RedactableString/Bytes, StringBuilders) x configuration (registered safe types, scripted error hook), payloads over the text or the byte alphabet (markers, single marker bytes, other lead bytes, FF); (b) writer-op histories of up to 12 ops in 12 contexts (StringBuilder, RedactableBytes, ManualBuffer with SetMode/raw fragments, Sprintfn, SafeFormat under a random directive / under Unsafe / under Safe / in a slice / in a struct, printing a StringBuilder, EscapeBytes); (c) Join/JoinTo over library-produced redactables. Oracle: well-formedness predicate on every output + escape invariance (replacing every marker in string payloads and literals by '?' must not change the output; only for %v/%s/%q directives and address-free outputs). Non-trivial = some payload, literal, panic message, map key or verb contains a marker or partial-marker byte (and the call did not end in a propagating panic). Distinct = distinct specs by 64-bit fingerprint.",
     "C03": "rapid: the same three generators as C01 (print cases over all routes / value universe / configurations; writer histories in 12 contexts; Join/JoinTo), judged by line-safety (well-formed and no line feed inside an envelope), well-formedness of every line of strings.Split(out, LF), and equality of line-wise and whole-string Redact / StripMarkers (string and bytes variants). The alphabets contain LF and LF LF tokens so that about 40% of unsafe payloads carry line feeds at their start, end or next to markers. Non-trivial = an unsafe-side payload contains a line feed and the output contains one. Distinct = distinct specs by 64-bit fingerprint.",
-    "C09": "enumeration: breadth-first over all sequences of up to 3 (quick) / 5 (thorough) ops drawn from 50 op instances (17 SafeWriter/io.Writer methods x payloads from {a, space, LF, start marker, e-acute, 'a LF start-marker', empty}), with exact de-duplication of the buffer's hidden state through the verif hook; every transition is judged against the segment model, every retained path is also run on ManualBuffer, Sprintfn and a SafeFormat method. rapid: histories of up to 40 ops over the text or byte alphabet, with SetMode/raw-fragment writes for the buffer routes and Print/Printf ops. Non-trivial = the history has ops of at least two classes (safe/unsafe/pre-redactable) or a payload containing a marker byte or a line feed. Distinct = distinct reached buffer states (enumeration) / distinct histories (rapid), by 64-bit fingerprint. Payloads are now and then long (25-140 tokens), run-structured (plain runs of 0-160 bytes each followed by a special token, so that special bytes fall at every offset modulo any window) or huge (filler up to one of 16 size thresholds from 60 B to 70 KB with tokens at the threshold), and one history in 25 contains a bulk write at such a threshold; SafeFormat histories are also run under %+v and %#v.",
-    "C13": "enumeration: at every buffer state reachable by up to 2 (quick) / 3 (thorough) ops over the C09 op instances, each accessor (Len, Cap, String, RedactableString, RedactableBytes, GetMode), Reset, TakeRedactableString and TakeRedactableBytes is applied with and without spare capacity and followed by each of 4 suffix ops; rapid: histories of up to 25+10 ops with accessor calls inserted at random positions, an optional Reset/Take in the middle, an initial Grow of 0/1/3/7/64/100, on StringBuilder or ManualBuffer. Non-trivial = some accessor/Reset/Take ran while an envelope was open or unescaped bytes were pending (observed through the hook). Distinct = distinct specs by 64-bit fingerprint. One history in 25 contains a bulk write at a size threshold (60 B .. 70 KB), so that accessors, Reset and Take also run on big buffers.",
+    "C09": "enumeration: breadth-first over all sequences of up to 3 (quick) / 5 (thorough) ops drawn from 50 op instances (17 SafeWriter/io.Writer methods x payloads from {a, space, LF, start marker, e-acute, 'a LF start-marker', empty}), with exact de-duplication of the buffer's hidden state through the verif hook; every transition is judged against the segment model, every retained path is also run on ManualBuffer, Sprintfn and a SafeFormat method. rapid: histories of up to 40 ops over the text or byte alphabet, with SetMode/raw-fragment writes for the buffer routes and Print/Printf ops. Non-trivial = the history has ops of at least two classes (safe/unsafe/pre-redactable) or a payload containing a marker byte or a line feed. Distinct = distinct reached buffer states (enumeration) / distinct histories (rapid), by 64-bit fingerprint. Payloads are now and then long (25-140 tokens), run-structured (plain runs of 0-160 bytes each followed by a special token, so that special bytes fall at every offset modulo any window) or huge (filler up to one of 16 size thresholds from 60 B to 70 KB with tokens at the threshold), and one history in 25 contains a bulk write at such a threshold; SafeFormat histories are also run under %+v and %#v. Also: io.Copy and fmt.Fprint onto the destination (unsafe bytes), an operand ledger (every []byte lent to the library is compared after the call, overwritten, and compared again at the end; RedactableBytes operands of Print are compared at the end), results of RedactableString() read after every op and judged again after the history, StringWithoutMarkers, and SafeFormat histories under %8v %-6.1v %08.3v '% x' %q when the script has no SafeInt/SafeUint/SafeFloat.",
+    "C13": "enumeration: at every buffer state reachable by up to 2 (quick) / 3 (thorough) ops over the C09 op instances, each accessor (Len, Cap, String, RedactableString, RedactableBytes, GetMode), Reset, TakeRedactableString and TakeRedactableBytes is applied with and without spare capacity and followed by each of 4 suffix ops; rapid: histories of up to 25+10 ops with accessor calls inserted at random positions, an optional Reset/Take in the middle, an initial Grow of 0/1/3/7/64/100, on StringBuilder or ManualBuffer. Non-trivial = some accessor/Reset/Take ran while an envelope was open or unescaped bytes were pending (observed through the hook). Distinct = distinct specs by 64-bit fingerprint. One history in 25 contains a bulk write at a size threshold (60 B .. 70 KB), so that accessors, Reset and Take also run on big buffers. Strings returned by accessors and Take, and the bytes returned by TakeRedactableBytes, are kept and compared with a private copy at the end; the operand ledger of C09 is active.",
     "C07": "enumeration: every string of up to 7 (quick) / 8 (thorough) tokens over {start marker, end marker, cross, LF, 'a', E2, 80, B9[, BA]} through Redact/StripMarkers (string and bytes variants, ToBytes/ToString), with the concatenation law at every token boundary; rapid: strings of up to 30 tokens over the byte alphabet with toggled envelopes (3/4 biased to well-formed) and pairs for the concatenation law. Non-trivial = the string contains at least one marker. Distinct = distinct input strings (64-bit FNV fingerprint). One case in about a hundred embeds the string between 60 B - 70 KB of well-formed filler lines (size-dependent paths), and every case first overwrites the slices returned by StartMarker/EndMarker/RedactedMarker (a caller owns them). First use: each of the 9 marker-transformation entry points is the first library call of a freshly started process, followed by all other entry points; results compared with a warm process.",
     "C10": "enumeration: every byte string up to the length bound over {E2,80,B9,BA,'a',LF,'?',C3[,space]} through EscapeMarkers/EscapeBytes, and through the internal routine for every start offset and both line-break settings; rapid: strings of up to 40 tokens over the byte alphabet (markers, marker bytes, other lead bytes, FF, text) and random splits of one payload into Write/WriteString calls on a ManualBuffer. Non-trivial = the input contains a full marker or an individual marker byte (for splits: and at least one cut). Distinct = distinct (check, input, offset, flag) by 64-bit FNV fingerprint (set capped at 4M per process). One split case in 15 is 'small head + one chunk at a size threshold (60 B .. 70 KB) + small tail' with cuts around the chunk; payload alphabets include marker look-alikes (runes sharing two trailing bytes with a marker).",
 }
